@@ -123,6 +123,14 @@ class Prop(PropBase):
                     c = {"op": op, "cls": cls, "N": N, "nchan": nchan, "extra": list(extra), "chunks": chunks, "sched": sched,
                          "seed": rng.randrange(10**6), "dtype": rng.choice(["f4", "f8"])}
                     c["args"] = self._args(rng, op, c, shape)
+                    # a second parameter set for the same operation on the same signal: both results are computed in ONE
+                    # dask.compute call (shared graph: colliding task names / tokens would mix them up)
+                    a2 = self._args(rng, op, c, shape)
+                    if op in ("coherent", "incoherent") and rng.random() < 0.7:
+                        a2 = dict(c["args"], dm=rng.choice([d for d in (1e-5, 3e-5, -2e-5, 1e-6, 2e-6) if d != c["args"]["dm"]]))
+                    if op == "freq_shift" and a2 == c["args"]:
+                        a2 = {"frac": -c["args"]["frac"]}
+                    c["args2"] = a2
                     yield c
         # random integer task graphs run by the real schedulers, completion order replayed in the model
         for _ in range(6 if quick else 60):
@@ -337,6 +345,20 @@ class Prop(PropBase):
         out["attrs_lazy"] = bool(invariant.same_attrs(r_d, r_np))
         fftish = c["op"] in ("time_shift", "time_shift_arr", "freq_shift", "coherent", "snippet", "stft", "istft")
         out["diff"] = self._close(comp.data, r_np.data, fftish)
+        # joint computation with a second parameter set in one graph
+        if c.get("args2") and c["args2"] != c["args"]:
+            c2 = dict(c, args=c["args2"])
+            try:
+                r2_np = self._apply(c2, z)
+                r2_d = self._apply(c2, zd)
+                j1, j2 = dask.compute(r_d.data, r2_d.data, **self._sched(c["sched"]))
+                out["joint_diff"] = self._close(j1, r_np.data, fftish) or self._close(j2, r2_np.data, fftish)
+                st = da.stack([r_d.data, r2_d.data]) if r_d.shape == r2_d.shape else None
+                if st is not None:
+                    both = st.compute(**self._sched(c["sched"]))
+                    out["joint_diff"] = out["joint_diff"] or self._close(both[0], r_np.data, fftish) or self._close(both[1], r2_np.data, fftish)
+            except Exception as e:  # noqa
+                out["joint_err"] = type(e).__name__ + ": " + str(e)[:80]
         # a second scheduler must give the same values as the first (bitwise)
         other = "threads" if c["sched"] != "threads" else "sync"
         comp2 = r_d.compute(**self._sched(other))
@@ -446,6 +468,9 @@ class Prop(PropBase):
             return f"{c['op']}: type/metadata/shape/dtype differ between the Dask and NumPy results (chunks {c['chunks']})"
         if code.get("diff"):
             return f"{c['op']} ({c['cls']}, chunks {c['chunks']}, scheduler {c['sched']}): {code['diff']}"
+        if code.get("joint_diff"):
+            return (f"{c['op']} with two parameter sets {c['args']} / {c.get('args2')} computed in one Dask graph: {code['joint_diff']} "
+                    f"(each computed alone is right)")
         if code.get("sched_diff"):
             return f"{c['op']}: schedulers disagree: {code['sched_diff']}"
         if code.get("after_count", 1) == 0 and c["N"] > 0 and c["op"] not in ("time_shift",) and c["sched"] != "processes":
